@@ -16,7 +16,9 @@ import (
 	"flag"
 	"fmt"
 	"os"
+	"runtime"
 	"strings"
+	"time"
 
 	"github.com/LiskHQ/lisk-engine/pkg/blockchain"
 	"github.com/LiskHQ/lisk-engine/pkg/codec"
@@ -41,6 +43,8 @@ type vRec struct {
 	Res   string            `json:"res"`
 	Panic string            `json:"panic,omitempty"`
 	Obs   map[string]string `json:"obs,omitempty"` // decoded proof fields (model evaluation)
+	Ms    int64             `json:"ms"`            // wall time of the call
+	Alloc uint64            `json:"alloc"`         // TotalAlloc delta of the process during the call (informative: background goroutines count)
 }
 
 func hx2(b []byte) string { return hex.EncodeToString(b) }
@@ -103,13 +107,19 @@ func errRes(err error) string {
 // entry points that timed out once: their spinning goroutine cannot be killed, so they are not called again in this run
 var hung = map[string]bool{}
 
-func runV(f string, a map[string]string) vRec {
-	rec := vRec{K: "v", F: f, A: a}
+func runV(f string, a map[string]string) (rec vRec) {
+	rec = vRec{K: "v", F: f, A: a}
 	if hung[f] {
 		rec.St, rec.Res = 4, "skipped-after-timeout"
 		return rec
 	}
+	t0 := time.Now()
+	var m0 runtime.MemStats
+	runtime.ReadMemStats(&m0)
 	defer func() {
+		var m1 runtime.MemStats
+		runtime.ReadMemStats(&m1)
+		rec.Ms, rec.Alloc = int64(time.Since(t0)/time.Millisecond), m1.TotalAlloc-m0.TotalAlloc
 		if rec.St == 3 {
 			hung[f] = true
 		}
@@ -208,8 +218,9 @@ func runV(f string, a map[string]string) vRec {
 				return
 			}
 			rec.Obs = map[string]string{"size": cx.U(p.Size), "idxs": u64List(p.Idxs), "sibs": hexList(p.SiblingHashes)}
-			_, err := rmt.CalculateRootFromUpdateData(unhexList(a["hashes"]), p)
+			root, err := rmt.CalculateRootFromUpdateData(unhexList(a["hashes"]), p)
 			rec.Res = errRes(err)
+			rec.Obs["root"] = hx2(root)
 		default:
 			panic("harness: unknown entry point " + f)
 		}
@@ -535,6 +546,48 @@ func genVerifierCases(o *hx.Out, rng *hx.Rng, n int) {
 			}
 		}
 	}
+	// accepting proofs: real trees of 1..12 leaves, genuine proofs for one / two / all leaves; VerifyProof against the real root
+	// (true) and a wrong one (false); CalculateRootFromUpdateData must recompute the real root (compared with the model's root)
+	for nl := 1; nl <= 12; nl++ {
+		tree := rmt.NewRegularMerkleTree(newMemDB())
+		vals, lh := [][]byte{}, [][]byte{}
+		for i := 0; i < nl; i++ {
+			v := []byte{byte(nl), byte(i), 0x33}
+			vals = append(vals, v)
+			lh = append(lh, crypto.Hash(append([]byte{0x00}, v...)))
+			if err := tree.Append(v); err != nil {
+				panic(err)
+			}
+		}
+		subsets := [][]int{{0}, {nl - 1}, {nl / 2}, {0, nl - 1}}
+		all := []int{}
+		for i := 0; i < nl; i++ {
+			all = append(all, i)
+		}
+		subsets = append(subsets, all)
+		for _, sub := range subsets {
+			qh, qv := [][]byte{}, [][]byte{}
+			seen := map[int]bool{}
+			for _, i := range sub {
+				if !seen[i] {
+					seen[i] = true
+					qh, qv = append(qh, lh[i]), append(qv, vals[i])
+				}
+			}
+			proof, err := tree.GenerateProof(qh)
+			if err != nil {
+				panic(err)
+			}
+			enc := hx2(proof.Encode())
+			put("rmt.VerifyProof", map[string]string{"hashes": hexList(qh), "proof": enc, "root": hx2(tree.Root()), "gen": "accepting"})
+			put("rmt.VerifyProof", map[string]string{"hashes": hexList(qh), "proof": enc, "root": hx2(h32(9)), "gen": "wrong-root"})
+			put("rmt.CalculateRootFromUpdateData", map[string]string{"hashes": hexList(qv), "proof": enc, "root": hx2(tree.Root()), "gen": "accepting"})
+			if len(proof.SiblingHashes) > 0 { // one sibling replaced
+				bad := &rmt.Proof{Size: proof.Size, Idxs: proof.Idxs, SiblingHashes: append([][]byte{h32(0x13)}, proof.SiblingHashes[1:]...)}
+				put("rmt.VerifyProof", map[string]string{"hashes": hexList(qh), "proof": hx2(bad.Encode()), "root": hx2(tree.Root()), "gen": "bad-sibling"})
+			}
+		}
+	}
 	// append paths and right witnesses with hashes of every length (both non-empty: an empty pair is the known
 	// VerifyRightWitness(nil, nil) issue owned by builder-tries)
 	for _, hl := range []int{0, 1, 31, 32, 33, 63, 64, 65, 100} {
@@ -545,7 +598,7 @@ func genVerifierCases(o *hx.Out, rng *hx.Rng, n int) {
 			}
 			return out
 		}
-		for _, size := range []uint64{1, 2, 3, 5, 7, 8} {
+		for _, size := range []uint64{1, 2, 3, 5, 7, 8, 257, 1000, 65537, 1<<32 + 1, 1<<63 + 5} {
 			pc := 0
 			for x := size; x > 0; x &= x - 1 {
 				pc++
@@ -743,3 +796,10 @@ func main() {
 		genNet(o, rng, *nnet)
 	}
 }
+
+type memDB struct{ m map[string][]byte }
+
+func newMemDB() *memDB                       { return &memDB{m: map[string][]byte{}} }
+func (m *memDB) Get(k []byte) ([]byte, bool) { v, ok := m.m[string(k)]; return v, ok }
+func (m *memDB) Set(k, v []byte)             { m.m[string(k)] = append([]byte{}, v...) }
+func (m *memDB) Del(k []byte)                { delete(m.m, string(k)) }
